@@ -117,6 +117,9 @@ func c07Sels() []c07Sel {
 			names: []string{"n", "m", "key"}, cols: []int{1, 2, 0}, kind: "bigint"},
 		{sel: "select substr(key, 0, 1) as g, sum(int(value)) as s, max(int(value)) as mx where true group by g",
 			names: []string{"s", "mx", "g"}, cols: []int{1, 2, 0}, kind: "bigint", aggr: true},
+		// fields that are nothing but the name of another field
+		{sel: "select key, value as v, v as w, int(value) as n, n as m, m as mm where true",
+			names: []string{"w", "m", "mm", "v"}, cols: []int{2, 4, 5, 1}, kind: "num"},
 		// Boolean group keys (they reach the order plan as the texts true / false,
 		// which sort like the Booleans: false first)
 		{sel: "select float(value) > 1.2 as b, is_int(value) as ii, count(1) as c, sum(strlen(key)) as sk where true group by b, ii",
